@@ -345,6 +345,7 @@ func (c *FnCtx) axiomText(pkg string) string {
 		}
 		b.WriteString(s)
 	}
+	b.WriteString(c.definesAxioms())
 	// axioms may have declared more specs
 	return c.ss.lateDecls() + b.String()
 }
@@ -468,6 +469,62 @@ func (e *Engine) VerifyLemma(ax *AxiomDef) *FuncResult {
 		res.Errs = append(res.Errs, err.Error())
 		return res
 	}
+	// proof steps: ground instances of earlier axioms / lemmas, and, under "induct m", of the lemma itself at
+	// arguments whose measure is smaller (and non-negative): well-founded induction on the naturals
+	for _, u := range ax.Uses {
+		call, ok := u.E.(ECall)
+		if !ok {
+			res.Errs = append(res.Errs, "use: expected name(args): "+u.Src)
+			continue
+		}
+		var target *AxiomDef
+		before := false
+		for _, a := range e.cs.Axioms {
+			if a == ax {
+				before = true
+			}
+			if a.Name == call.Fun {
+				target = a
+				if a != ax && before {
+					target = nil // declared after this lemma: not usable (no circular proofs)
+				}
+				break
+			}
+		}
+		if target == nil {
+			res.Errs = append(res.Errs, "use "+call.Fun+": no axiom or lemma of that name declared before lemma "+ax.Name)
+			continue
+		}
+		inst, err := c.useInstance(u, en)
+		if err != nil {
+			res.Errs = append(res.Errs, "use "+u.Src+": "+err.Error())
+			continue
+		}
+		if target == ax {
+			if ax.Induct == nil {
+				res.Errs = append(res.Errs, "use of the lemma itself needs an induct clause: "+u.Src)
+				continue
+			}
+			m0, err1 := en.Eval(ax.Induct.E)
+			vars2 := map[string]Term{}
+			for i, p := range ax.Params {
+				t, err := en.Eval(call.Args[i])
+				if err != nil {
+					err1 = err
+					break
+				}
+				vars2[p.Name] = t
+			}
+			en2 := &Env{c: c, vars: vars2, cur: st, old: st, pkg: ax.PkgPath}
+			m1, err2 := en2.Eval(ax.Induct.E)
+			if err1 != nil || err2 != nil {
+				res.Errs = append(res.Errs, fmt.Sprintf("induct %s: %v %v", ax.Induct.Src, err1, err2))
+				continue
+			}
+			inst = implies(and(app(">=", m1.S, "0"), app("<", m1.S, m0.S)), inst)
+		}
+		c.emit(fmt.Sprintf("(assert %s)", inst))
+	}
 	o := &Obligation{Name: "lemma:" + ax.Name, Kind: "lemma", Func: "lemma " + ax.Name, Pos: fmt.Sprintf("%s:%d", ax.File, ax.Line), Src: ax.Src, Guard: "true", Goal: g}
 	if e.known != nil {
 		for _, kf := range e.known.Findings {
@@ -509,6 +566,80 @@ func (c *FnCtx) axiomTextBefore(l *AxiomDef) string {
 			continue
 		}
 		b.WriteString(s)
+	}
+	b.WriteString(c.definesAxioms())
+	return b.String()
+}
+
+// definesAxioms: a pure function of value parameters that "defines" a spec symbol f and whose postconditions
+// are proved (it is under contract, not trusted) gives, for all arguments, requires ==> ensures[result := f(args)].
+// These are consequences of proved obligations, not assumptions; they let lemmas talk about the real functions.
+func (c *FnCtx) definesAxioms() string {
+	var keys []string
+	for k, fc := range c.eng.cs.Funcs {
+		if fc.Defines != "" && fc.Pure && !fc.Trusted && !fc.Assumed && !fc.FnType {
+			keys = append(keys, k)
+		}
+	}
+	sort.Strings(keys)
+	var b strings.Builder
+	for _, k := range keys {
+		fc := c.eng.cs.Funcs[k]
+		if c.fc != nil && c.fc.Key == k {
+			continue // never while verifying the function itself
+		}
+		if !c.specDecl["spec."+sanitize(fc.Defines)] {
+			continue
+		}
+		fn := c.eng.funcs[k]
+		if fn == nil || fn.Signature.Results().Len() != 1 {
+			continue
+		}
+		vars := map[string]Term{}
+		var binders []string
+		var argExprs []Expr
+		ok := true
+		for _, p := range fn.Params {
+			if isRefLike(p.Type()) {
+				ok = false
+			}
+			n := "d!" + sanitize(p.Name())
+			srt := c.ss.SortOf(p.Type())
+			vars[p.Name()] = Term{n, srt, p.Type()}
+			binders = append(binders, fmt.Sprintf("(%s %s)", n, srt))
+			argExprs = append(argExprs, EIdent{p.Name()})
+		}
+		if !ok || len(binders) == 0 {
+			continue
+		}
+		st := &State{heap: map[string]string{}, armed: map[*ssa.Defer]string{}}
+		en := &Env{c: c, vars: vars, cur: st, old: st, pkg: fc.PkgPath}
+		res, err := en.Eval(ECall{fc.Defines, argExprs})
+		if err != nil {
+			continue
+		}
+		vars["result"] = res
+		vars["result0"] = res
+		var pre, post []string
+		for _, r := range fc.Requires {
+			g, err := en.EvalBool(r.E)
+			if err != nil {
+				ok = false
+				break
+			}
+			pre = append(pre, g)
+		}
+		for _, e := range fc.Ensures {
+			g, err := en.EvalBool(e.E)
+			if err != nil {
+				continue
+			}
+			post = append(post, g)
+		}
+		if !ok || len(post) == 0 {
+			continue
+		}
+		fmt.Fprintf(&b, "(assert (forall (%s) (! (=> %s %s) :pattern (%s))))\n", strings.Join(binders, " "), and(pre...), and(post...), res.S)
 	}
 	return b.String()
 }
